@@ -377,10 +377,38 @@ func genRandomRequest(c *Ctx) *genReq {
 		fcs = append(fcs, fc)
 		files = append(files, fd)
 	}
+	// custom options with map-typed payloads on the last file (and sometimes on every
+	// file), declared in that file or in an extra imported one
+	withOptions := c.Intn(2) == 0
+	if withOptions {
+		last := fcs[len(fcs)-1]
+		users := []*genFileCtx{last}
+		if c.Intn(3) == 0 {
+			users = fcs
+		}
+		if c.Bool() && len(users) == 1 {
+			genOptDeclare(last.fd) // same file
+		} else {
+			decl := &descriptorpb.FileDescriptorProto{Name: proto.String("r/xopts.proto"), Package: proto.String("rp.xopts"),
+				Options: &descriptorpb.FileOptions{GoPackage: proto.String("example.com/r/xopts")}}
+			if c.Bool() {
+				decl.Syntax = proto.String("proto3")
+			}
+			genOptDeclare(decl)
+			for _, u := range users {
+				u.fd.Dependency = append(u.fd.Dependency, "r/xopts.proto")
+			}
+			files = append([]*descriptorpb.FileDescriptorProto{decl}, files...)
+		}
+		for _, u := range users {
+			genOptApply(c, u.fd, false)
+		}
+		files = genMergeFiles(genDescriptorClosure(), files)
+	}
 	if goFeatures {
 		var dep []*descriptorpb.FileDescriptorProto
 		genClosure(gofeaturespb.File_google_protobuf_go_features_proto, map[string]bool{}, &dep)
-		files = append(dep, files...)
+		files = genMergeFiles(dep, files)
 	}
 	// a request is only meaningful when the files link (the generator is never run on
 	// anything protoc rejects)
@@ -403,5 +431,19 @@ func genRandomRequest(c *Ctx) *genReq {
 		toGen = []string{fcs[len(fcs)-1].fd.GetName()}
 	}
 	c.Stat("gen_random")
+	if withOptions {
+		// the file that carries the options is always generated
+		lastName, has := fcs[len(fcs)-1].fd.GetName(), false
+		for _, t := range toGen {
+			has = has || t == lastName
+		}
+		if !has {
+			toGen = append(toGen, lastName)
+		}
+		c.Stat("gen_random_with_options")
+		r := genMakeReq(c, "random+options", files, toGen, genParam(c, files[len(files)-len(fcs):], toGen))
+		r.reps = true
+		return r
+	}
 	return genMakeReq(c, "random", files, toGen, genParam(c, files[len(files)-len(fcs):], toGen))
 }
